@@ -207,6 +207,10 @@ impl WireEncode for StandardPath {
             return Err("curr_hop_field exceeds total number of hop fields".into());
         }
 
+        if self.current_hop_field as usize > StdPathMetaLayout::MAX_TOTAL_HOPS {
+            return Err("curr_hop_field exceeds maximum encodeable value".into());
+        }
+
         if self.current_info_field as usize >= self.info_field_count() {
             return Err("current_info_field exceeds total number of info fields".into());
         }
